@@ -657,7 +657,10 @@ pub mod clk {
 }
 pub use clk::*;
 
-pub assume_specification [Instant::now] () -> (r: Instant);
+/// the Instant was read from the clock by the operation that is running (a store stamps its entry with such a reading)
+pub uninterp spec fn taken_now(i: Instant) -> bool;
+pub assume_specification [Instant::now] () -> (r: Instant)
+    ensures taken_now(r);
 pub assume_specification [Instant::elapsed] (i: &Instant) -> (d: std::time::Duration)
     ensures dur_secs(d) == age_secs(*i), dur_f64(d) == age_f64(*i);
 pub assume_specification [std::time::Duration::as_secs] (d: &std::time::Duration) -> (r: u64)
